@@ -36,6 +36,39 @@ theorem decodeLoop_steps (cfg : DecCfg) : ∀ (ops : List Op) (ds ds' : DecSt) (
       exact ih d1 ds' fuel rest (fun o ho => hw o (by simp [ho])) h
     · cases h
 
+/-- the serialisation of op lists is injective on well-formed ops: opcode-level results lift to bytes -/
+theorem serAll_injective : ∀ (ops₁ ops₂ : List Op), (∀ op ∈ ops₁, op.wf) → (∀ op ∈ ops₂, op.wf) →
+    serAll ops₁ = serAll ops₂ → ops₁ = ops₂ := by
+  intro ops₁
+  induction ops₁ with
+  | nil =>
+    intro ops₂ _ _ h
+    cases ops₂ with
+    | nil => rfl
+    | cons b bs =>
+      rw [serAll_cons] at h
+      have := ser_length_pos b
+      have hl := congrArg List.length h
+      simp only [show serAll ([] : List Op) = [] from rfl, List.length_append, List.length_nil] at hl
+      omega
+  | cons a as ih =>
+    intro ops₂ h1 h2 h
+    cases ops₂ with
+    | nil =>
+      rw [serAll_cons] at h
+      have := ser_length_pos a
+      have hl := congrArg List.length h
+      simp only [show serAll ([] : List Op) = [] from rfl, List.length_append, List.length_nil] at hl
+      omega
+    | cons b bs =>
+      rw [serAll_cons, serAll_cons] at h
+      have pa := parseOp_ser a (serAll as) (h1 a (by simp))
+      have pb := parseOp_ser b (serAll bs) (h2 b (by simp))
+      rw [h, pb] at pa
+      simp only [Parsed.op.injEq] at pa
+      obtain ⟨rfl, hrest⟩ := pa
+      rw [ih bs (fun o ho => h1 o (by simp [ho])) (fun o ho => h2 o (by simp [ho])) hrest.symm]
+
 theorem sim_init (g : Heap) : Sim g ⟨[], 0⟩ {} :=
   ⟨rfl, rfl, by intro a id h; simp [lookup] at h, Closed.init, by intro a o h; simp at h, Nat.le_refl _, Nat.zero_le _⟩
 
